@@ -16,6 +16,7 @@ pub mod c15;
 pub mod sweep;
 pub mod faults;
 pub mod c16;
+pub mod c17;
 pub mod c19;
 pub mod c20;
 
@@ -52,6 +53,7 @@ pub fn all() -> Vec<PropDef> {
         post: None,
     },
     PropDef { id: "C20", spaces: c20::spaces, assumptions: c20::ASSUMPTIONS, budget: (60.0, 3000.0), post: None },
+    PropDef { id: "C17", spaces: c17::spaces, assumptions: c17::ASSUMPTIONS, budget: (120.0, 3000.0), post: None },
     PropDef { id: "C19", spaces: c19::spaces, assumptions: c19::ASSUMPTIONS, budget: (60.0, 3000.0), post: None },
     PropDef {
         id: "C16",
